@@ -1,0 +1,11 @@
+//go:build verif
+
+package zero
+
+// Contracts for govc (see /verif/DESIGN.md). Comment-only; compiled only with -tags verif.
+
+//@ func Bytes
+//@   modifies b[*]
+//@   ensures zeroed: forall j int :: 0 <= j && j < len(b) ==> b[j] == 0
+//@   loop i invariant zeroed-prefix: forall j int :: 0 <= j && j <= #rangeindex ==> b[j] == 0
+//@   loop i decreases len(b) - #rangeindex
